@@ -28,6 +28,12 @@ class Opaque:
     def __repr__(self):
         return f"Opaque({self.reason})"
 
+    # an unmodelled value absorbs arithmetic (cell by cell inside arrays): the result is just as unknown
+    def _absorb(self, *a):
+        return self
+    __add__ = __radd__ = __sub__ = __rsub__ = __mul__ = __rmul__ = __truediv__ = __rtruediv__ = __pow__ = __rpow__ = _absorb
+    __neg__ = __pos__ = __abs__ = _absorb
+
     def key(self):
         return ("opaque", self.reason)
 
@@ -396,6 +402,18 @@ class Guard:
                 return a
             return keyof(a)
         return ("G", self.kind) + tuple(conv(a) for a in self.args)
+
+
+def inf_select(c, a, b):
+    """select(c, a, b) where a branch is +inf: the infinite branch becomes the atom fn:inf, an ordinary symbol for the algebra that evaluates
+    to a huge finite number at witness points (x / inf vanishes), so identities through it are decided by evaluation only.  None when
+    neither branch is infinite."""
+    from .alg import Inf, Fn, E as _E
+    if isinstance(a, Inf) and isinstance(b, _E):
+        return Fn("select", c.astuple(), Fn("inf"), b)
+    if isinstance(b, Inf) and isinstance(a, _E):
+        return Fn("select", c.astuple(), a, Fn("inf"))
+    return None
 
 
 class GenList(list):
